@@ -573,6 +573,53 @@ theorem never_shown_entry_witness :
     ∧ tableWithin wClients wTable = true ∧ tableWithin wClients wTableNeverShown = false := by
   refine ⟨by decide +kernel, by decide +kernel, by decide +kernel, by decide +kernel, by decide +kernel, by decide +kernel⟩
 
+/-! ### output sanitization enabled: only the redacted values may differ -/
+
+/-- With nothing redacted the clause is the property itself: whatever reproduces the request also does so "up to
+    redacted values" (for every list of spellings of the replacement). -/
+theorem redacted_is_weaker (ms : List Str) (auto : Table) (o : Original) (cmd : Str)
+    (h : reproduces auto o cmd = true) : reproducesRedacted ms auto o cmd = true :=
+  reproduces_redacted_of_reproduces ms auto o cmd h
+
+/-- What the clause accepts: the command denotes one request with the method, body and `--insecure` of the original
+    and its URL up to the query values; every field it sends has the name of a field of the original and either that field's
+    value or a spelling of the replacement text — nothing else may differ. -/
+theorem redacted_accepts_only_replacements (ms : List Str) (auto : Table) (o : Original) (cmd : Str) (argv : List Str)
+    (m u : Str) (hs : List (Str × Str)) (b : Option Str) (k : Bool)
+    (hp : shParse cmd = some argv) (hc : curlSem argv = .request m u hs b k)
+    (h : reproducesRedacted ms auto o cmd = true) :
+    m = o.method ∧ bodyOf b = bodyOf o.body ∧ k = !o.verify ∧ urlBase u = urlBase o.url
+      ∧ ∀ kv ∈ hs, ∃ ov ∈ o.headers, ov.1 = kv.1 ∧ (ov.2 = kv.2 ∨ kv.2 ∈ ms) :=
+  redacted_accepts_only ms auto o cmd argv m u hs b k hp hc h
+
+/-- **The sanitized code sample.** `prepare_request(…, sanitize=True)` hands `generate` the request with the values of
+    the sensitive keys replaced (`sanitizeFlat`: key among the configured keys or containing a configured marker) and
+    a URL that is a redaction of the original's: for every configuration, every table that hides only automatic
+    fields and has no entry whose value is the replacement text, the command printed by the repaired `generate`
+    sends the original request up to the redacted values. -/
+theorem sanitized_command_reproduces_redacted (cfg : SanConfig) (ms : List Str) (hm : cfg.replacement ∈ ms)
+    (tbl auto : Table) (r : Req) (url' : Str)
+    (hwf : wf ⟨r.method, url', r.body, r.verify, sanitizeFlat cfg r.headers, r.known⟩ = true)
+    (hurl : urlRedacted ms r.url url' = true)
+    (hsub : ∀ k v, isAutoValued tbl k v = true → isAuto auto (k, v) = true)
+    (hrep : ∀ e ∈ tbl, e.2 ≠ some cfg.replacement) :
+    reproducesRedacted ms auto (original r)
+      (generate ⟨.repaired, .repaired, .repaired⟩ tbl
+        ⟨r.method, url', r.body, r.verify, sanitizeFlat cfg r.headers, r.known⟩) = true :=
+  sanitized_reproduces_redacted cfg ms hm tbl auto r url' hwf hurl hsub hrep
+
+/-- Witness (kernel-checked): for a request with credentials in a header and in the query, the command printed for
+    the sanitized request is accepted by the clause and not by the plain property; a command that also changes a
+    value it does not show as redacted (the tenant) is rejected by both. -/
+theorem sanitized_witness :
+    sanitizeFlat wSanCfg wSecretReq.headers
+        = [("X-Tenant".toList, "blue team".toList), ("Authorization".toList, "[Filtered]".toList),
+           ("X-Monkey".toList, "[Filtered]".toList)]
+    ∧ reproducesRedacted wMarkers [] (original wSecretReq) (generate ⟨.repaired, .repaired, .repaired⟩ [] wSecretShown) = true
+    ∧ reproduces [] (original wSecretReq) (generate ⟨.repaired, .repaired, .repaired⟩ [] wSecretShown) = false
+    ∧ reproducesRedacted wMarkers [] (original wSecretReq) (generate ⟨.repaired, .repaired, .repaired⟩ [] wSecretWrong) = false := by
+  refine ⟨by decide +kernel, by decide +kernel, by decide +kernel, by decide +kernel⟩
+
 /-! ### the report: `format_failures` prints the command on an indented line -/
 
 /-- The failure report shows the command after an indentation of blanks (`"Reproduce with: \n\n    {curl}"`): a
@@ -690,5 +737,14 @@ example : curlWire wClients (argvOf ⟨.repaired, .repaired, .repaired⟩ wTable
             ("X-Tenant".toList, "blue team".toList), ("Accept-Encoding".toList, "identity".toList),
             ("Content-Type".toList, "text/plain".toList)] := by
   decide +kernel
+
+/-- … of the sanitization theorems: the witness request meets the hypotheses of `sanitized_command_reproduces_redacted`
+    (a well-formed sanitized request, a redacted URL, the replacement among the spellings) and of
+    `redacted_accepts_only_replacements` (the command parses to one request) -/
+example : wf wSecretShown = true ∧ urlRedacted wMarkers wSecretReq.url wSecretShown.url = true
+    ∧ wSanCfg.replacement ∈ wMarkers
+    ∧ wSecretShown.headers = sanitizeFlat wSanCfg wSecretReq.headers
+    ∧ (shParse (generate ⟨.repaired, .repaired, .repaired⟩ [] wSecretShown)).isSome = true := by
+  refine ⟨by decide +kernel, by decide +kernel, by decide, by decide +kernel, by decide +kernel⟩
 
 end SV.Props.C09
